@@ -347,6 +347,23 @@ func suiteDocument(r *Rng, n int, thorough bool, o *Out) {
 		for i := r.IntN(5); i > 0; i-- {
 			pool = append(pool, genResOf(r, ts[r.IntN(len(ts))], o))
 		}
+		if len(prim) > 0 && !mixedTyped && r.chance(1, 4) {
+			// the same resource (type name and ID) as a primary one, held as a soft resource
+			// whose Type value has one field less (what a partial read of it gives)
+			src := prim[r.IntN(len(prim))]
+			t := src.GetType().Copy()
+			t.NewFunc = nil
+			for k := range t.Attrs {
+				delete(t.Attrs, k)
+				break
+			}
+			twin := &jsonapi.SoftResource{Type: &t}
+			twin.SetID(src.Get("id").(string))
+			if p, _ := guard(func() { doc.Include(twin) }); p {
+				o.emit(lst("marshal", "include-panic"), "panic", "FAIL[C03]:C03 Include panicked")
+			}
+			o.stat("include.twin-of-primary")
+		}
 		nInc := r.IntN(7)
 		for i := 0; i < nInc; i++ {
 			var res jsonapi.Resource
